@@ -536,7 +536,6 @@ func orderSensitiveFlag(c *Ctx, info *types.Info, body *ast.BlockStmt, rs *ast.R
 	return badName, badPos, why
 }
 
-
 // unsortedAccumulation: the loop appends to a slice declared outside it, that slice is a direct result of
 // a return statement, and no call sort.*(S, …) / slices.Sort*(S) dominates that return.
 func unsortedAccumulation(c *Ctx, info *types.Info, body *ast.BlockStmt, rs *ast.RangeStmt) (string, token.Pos) {
